@@ -20,6 +20,7 @@ public:
 	virtual ~ArchiveOps() = default;
 	virtual void SaveDyn(DynNode& root, const BitSerializer::SerializationOptions& o, IoOut out) = 0;
 	virtual void LoadDyn(DynNode& root, const BitSerializer::SerializationOptions& o, IoIn in) = 0;
+	virtual void LoadIntVector(std::vector<int32_t>& v, const BitSerializer::SerializationOptions& o, IoIn in) = 0;
 	virtual void SaveZoo(Zoo& z, const BitSerializer::SerializationOptions& o, IoOut out) = 0;
 	virtual void LoadZoo(Zoo& z, const BitSerializer::SerializationOptions& o, IoIn in) = 0;
 };
